@@ -13,7 +13,7 @@
 From Coq Require Import ZArith List Bool Lia.
 Import ListNotations.
 From Urwid Require Import PyBase Utf8 TextLayout TextLayoutBytes TextLayoutFacts TextLayoutProofs TextLayoutTop TextLayoutNatural TextLayoutClip
-     TextLayoutBytesSim TextLayoutBytesTop.
+     TextLayoutBytesSim TextLayoutBytesTop TextLayoutModes TextLayoutModesSim TextLayoutModesWide TextLayoutModesTop.
 Open Scope Z_scope.
 
 Definition width_fn (cw : Z -> Z) : Prop := (forall c, 0 <= cw c <= 2) /\ cw SP = 1.
@@ -283,6 +283,116 @@ Proof.
 Qed.
 Print Assumptions bytes_rows_eq.
 
+(* ====================================================================================== *)
+(* BYTES text in the WIDE (double-byte: gbk, big5, uhc, euc-kr, euc-jp ...) and NARROW (single-byte: ascii,
+   latin-1 ...) byte-encoding modes.  Model/TextLayoutModes.v is the layout parametric in the mode (record of
+   the str_util position queries); [P_wide] uses within_double_byte, written out in the model and proved equal
+   to C11's model of it and to the translation regenerated from str_util.py (w_within_is_translated).
+   A well-formed double-byte text is a list of characters [s] with [forallb wfb s = true]: each character is
+   a byte below 0x80 or 256*lead+trail with lead 0x81..0xFF and trail 0x40..0x7E / 0x80..0xFF; its bytes are
+   [flat_map enc_w s]; [gboff enc_w s k] is the byte offset of character k; a character is [cw_w] = 1 or 2
+   columns wide.  In narrow mode every byte is a character of one column ([enc_n c = [c]], the map is the
+   identity).  The ellipsis is given as the list of its characters. *)
+Theorem wide_layout_is_image :
+  forall s width align wrap ell, forallb wfb s = true -> 1 <= width ->
+    layout_g P_wide (flat_map enc_w s) width align wrap (map enc_w ell)
+    = gmap_result enc_w s (layout cw_w s width align wrap ell).
+Proof. exact wide_layout_is_image. Qed.
+Print Assumptions wide_layout_is_image.
+
+(* whole characters, shown once, in order: byte ranges increasing and disjoint, each the image of a character range *)
+Theorem wide_layout_order :
+  forall s width align wrap ell Lb, forallb wfb s = true -> 1 <= width ->
+    layout_g P_wide (flat_map enc_w s) width align wrap (map enc_w ell) = Ok Lb ->
+    ranges_sorted 0 (shown_ranges Lb) (zlen (flat_map enc_w s)).
+Proof. intros s width align wrap ell Lb Hwf Hw. exact (wide_layout_order s Hwf width Hw align wrap ell Lb). Qed.
+Print Assumptions wide_layout_order.
+
+Theorem wide_layout_fits :
+  forall s width align wrap ell Lb ln, forallb wfb s = true -> 1 <= width -> is_wrap wrap ->
+    layout_g P_wide (flat_map enc_w s) width align wrap (map enc_w ell) = Ok Lb -> In ln Lb ->
+    0 <= line_width ln <= width /\
+    forall sc o e, In (SText sc o e) ln ->
+      exists o' e', o = gboff enc_w s o' /\ e = gboff enc_w s e' /\ 0 <= o' < e' /\ e' <= zlen s /\ sc = e - o.
+Proof. intros s width align wrap ell Lb ln Hwf Hw Hm E. exact (wide_layout_fits s Hwf width Hw align wrap ell Lb Hm E ln). Qed.
+Print Assumptions wide_layout_fits.
+
+Theorem wide_layout_omits_only_wrap :
+  forall s width align wrap ell Lb, forallb wfb s = true -> 1 <= width -> is_wrap wrap ->
+    layout_g P_wide (flat_map enc_w s) width align wrap (map enc_w ell) = Ok Lb -> Lb <> [[]] ->
+    exists L, layout cw_w s width align wrap ell = Ok L /\ Lb = gmap_layout enc_w (gboff enc_w s) L /\
+      forall j, 0 <= j < zlen (flat_map enc_w s) ->
+        exists k, 0 <= k < zlen s /\ gboff enc_w s k <= j < gboff enc_w s (k + 1) /\
+          (in_ranges j (shown_ranges Lb) \/ omit_ok cw_w s wrap L k).
+Proof. intros s width align wrap ell Lb Hwf Hw. exact (wide_layout_omits_only_wrap s Hwf width Hw align wrap ell Lb). Qed.
+Print Assumptions wide_layout_omits_only_wrap.
+
+Theorem wide_layout_omits_only_trim :
+  forall s width align wrap ell Lb, forallb wfb s = true -> 1 <= width -> is_trim wrap ->
+    layout_g P_wide (flat_map enc_w s) width align wrap (map enc_w ell) = Ok Lb ->
+    forall j, 0 <= j < zlen (flat_map enc_w s) ->
+      exists k, 0 <= k < zlen s /\ gboff enc_w s k <= j < gboff enc_w s (k + 1) /\
+        (in_ranges j (shown_ranges Lb) \/ omit_ok_trim cw_w s width wrap ell k).
+Proof. intros s width align wrap ell Lb Hwf Hw. exact (wide_layout_omits_only_trim s Hwf width Hw align wrap ell Lb). Qed.
+Print Assumptions wide_layout_omits_only_trim.
+
+(* render_total in wide mode: never raises, as many rows as rows() reports, every row exactly [width] bytes
+   (= columns), and the rows are the encodings of the rows of the str rendering (no character is torn) *)
+Theorem wide_render_total :
+  forall s width align wrap ell, forallb wfb s = true -> 1 <= width ->
+    exists srows, text_render cw_w s width align wrap ell = LOk srows /\
+      text_render_g P_wide (flat_map enc_w s) width align wrap (map enc_w ell) = LOk (map (flat_map enc_w) srows) /\
+      text_rows_g P_wide (flat_map enc_w s) width align wrap (map enc_w ell) = LOk (zlen (map (flat_map enc_w) srows)) /\
+      Forall (fun rb => zlen rb = width) (map (flat_map enc_w) srows).
+Proof. intros s width align wrap ell Hwf Hw. exact (wide_render_total s Hwf width Hw align wrap ell). Qed.
+Print Assumptions wide_render_total.
+
+(* narrow mode: no hypothesis on the bytes at all *)
+Theorem narrow_layout_is_image :
+  forall s width align wrap ell, 1 <= width ->
+    layout_g P_narrow (flat_map enc_n s) width align wrap (map enc_n ell)
+    = gmap_result enc_n s (layout cw_n s width align wrap ell).
+Proof. exact narrow_layout_is_image. Qed.
+Print Assumptions narrow_layout_is_image.
+
+Theorem narrow_layout_order :
+  forall s width align wrap ell Lb, 1 <= width ->
+    layout_g P_narrow (flat_map enc_n s) width align wrap (map enc_n ell) = Ok Lb ->
+    ranges_sorted 0 (shown_ranges Lb) (zlen (flat_map enc_n s)).
+Proof. intros s width align wrap ell Lb Hw. exact (narrow_layout_order s width Hw align wrap ell Lb). Qed.
+Print Assumptions narrow_layout_order.
+
+Theorem narrow_layout_fits :
+  forall s width align wrap ell Lb ln, 1 <= width -> is_wrap wrap ->
+    layout_g P_narrow (flat_map enc_n s) width align wrap (map enc_n ell) = Ok Lb -> In ln Lb ->
+    0 <= line_width ln <= width /\
+    forall sc o e, In (SText sc o e) ln -> 0 <= o < e /\ e <= zlen s /\ sc = e - o.
+Proof. intros s width align wrap ell Lb ln Hw Hm E. exact (narrow_layout_fits s width Hw align wrap ell Lb Hm E ln). Qed.
+Print Assumptions narrow_layout_fits.
+
+Theorem narrow_layout_omits_only :
+  forall s width align wrap ell Lb, 1 <= width ->
+    layout_g P_narrow (flat_map enc_n s) width align wrap (map enc_n ell) = Ok Lb ->
+    (is_wrap wrap -> Lb <> [[]] ->
+       exists L, layout cw_n s width align wrap ell = Ok L /\ Lb = gmap_layout enc_n (gboff enc_n s) L /\
+         forall j, 0 <= j < zlen s -> in_ranges j (shown_ranges Lb) \/ omit_ok cw_n s wrap L j) /\
+    (is_trim wrap -> forall j, 0 <= j < zlen s -> in_ranges j (shown_ranges Lb) \/ omit_ok_trim cw_n s width wrap ell j).
+Proof.
+  intros s width align wrap ell Lb Hw E. split.
+  - intros Hm NE. exact (narrow_layout_omits_only_wrap s width Hw align wrap ell Lb Hm E NE).
+  - intros Hm. exact (narrow_layout_omits_only_trim s width Hw align wrap ell Lb Hm E).
+Qed.
+Print Assumptions narrow_layout_omits_only.
+
+Theorem narrow_render_total :
+  forall s width align wrap ell, 1 <= width ->
+    exists srows, text_render cw_n s width align wrap ell = LOk srows /\
+      text_render_g P_narrow (flat_map enc_n s) width align wrap (map enc_n ell) = LOk (map (flat_map enc_n) srows) /\
+      text_rows_g P_narrow (flat_map enc_n s) width align wrap (map enc_n ell) = LOk (zlen (map (flat_map enc_n) srows)) /\
+      Forall (fun rb => zlen rb = width) (map (flat_map enc_n) srows).
+Proof. intros s width align wrap ell Hw. exact (narrow_render_total s width Hw align wrap ell). Qed.
+Print Assumptions narrow_render_total.
+
 (* ---------- non-vacuity: the hypotheses are satisfiable and the model computes ---------- *)
 Definition cw_ex (c : Z) : Z :=
   if c =? 19990 then 2            (* U+4E16, double width *)
@@ -337,4 +447,13 @@ Qed.
 Example bytes_layout_runs :
   layout_b wcw_ex (encs [97; 19990; 98]) 2 AlLeft WAny [8230]
   = Ok [[SText 1 0 1]; [SText 2 1 4]; [SText 1 4 5; SPad 0 5]].
+Proof. vm_compute. reflexivity. Qed.
+
+(* a well-formed GBK text: 'a', U+4E02 (bytes 81 40: lowest lead byte, ASCII-range trail byte), 'b' *)
+Example wide_wf : forallb wfb [97; 256 * 129 + 64; 98] = true.
+Proof. vm_compute. reflexivity. Qed.
+
+Example wide_layout_runs :
+  layout_g P_wide (flat_map enc_w [97; 256 * 129 + 64; 98]) 2 AlLeft WAny [[161; 173]]
+  = Ok [[SText 1 0 1]; [SText 2 1 3]; [SText 1 3 4; SPad 0 4]].
 Proof. vm_compute. reflexivity. Qed.
